@@ -570,10 +570,10 @@ From Texel.Gen Require Import DescentGen.
     nil); range loops = range_loop; the loops over the levels = Fixpoints on fuel deepestLevel + 1 (+ 2); uint = N with
     arithmetic modulo 2^64; mathhelp.Pow2 and getQuadrantExtentAndCentroid called as regenerated in PointIndexGen.v
     (over Z, through the adapters printed in DescentGen.v); insertCoord returns the final value of ix.quadrants.
-    NOT regenerated (still hand-modelled): InsertPolygon's loops over rings and vertices and its pre-sizing of the
-    maps, InsertPoint's conversion from floats, the wrapper SnapClosestPoints (float conversion of the line and of the
-    centroids, the range over the per-level result map, whose order does not matter because the hit maps are per
-    level). *)
+    NOT regenerated HERE: InsertPolygon's loops over rings and vertices and its pre-sizing of the maps, InsertPoint's
+    conversion from floats, the wrapper SnapClosestPoints (float conversion of the line and of the centroids, the range
+    over the per-level result map) — these are regenerated in gen/IndexTopGen.v and tied at the end of this file
+    (C02_source_tie_snap_closest_points) and in C09.v (C09_source_tie_insert_polygon). *)
 Theorem C02_source_tie_descent :
   forall (g : grid) (hots : list (list (Z * Z))) (ix : gen_PointIndex) (a b : pt) (lm : gomap N unit),
   ix_rel g hots ix -> (gdeep g <= 32)%nat -> line_fits a b (gext g) ->
@@ -626,4 +626,112 @@ Example C02_source_tie_descent_example :
   map (fun e => length (snd e)) (model (3, 50) (60, 1)) = [1; 1; 0]%nat /\
   run (100, 100) (200, 100) = Ok [] /\
   (do ix <- foldM gen_insert_one hs (gen_empty_index g); gen_snapClosestPoints ix ((2, 2), (40, 40)) []) = Ok [].
+Proof. vm_compute. repeat split; reflexivity. Qed.
+
+From Texel Require Import Index.GoTop Index.ProofsGenIndexTop.
+From Texel.Gen Require Import IndexTopGen.
+
+(** ** tie G2, whole body: the exported [SnapClosestPoints] (and [GetHitMultiple]) of pointindex.go and
+    [FromGeomLine] / [Point.ToGeomPoint] / [ToGeomOrd] / [FromGeomOrd] of package intgeom REGENERATED from source on this
+    run (gen/IndexTopGen.v, translator/indextop.go).
+
+    REGENERATED: every statement: the conversion of the line to integers ([ofFline fo]), the call of the regenerated
+    descent, the make of the result map, the loop over the per-level result map with [continue] for a level without
+    quadrants, the makes of the two per-level hit maps, the slice of points, the loop over the quadrants with the
+    conversion of each centroid to floats ([toFpt fo]) and the hit accounting for every centre but the first ([i > 0]).
+    The float operations are abstract: the theorem holds for EVERY [fo : floatops].
+    STATEMENT: for an index whose quadrants refine the model's [hots] (as in C02_source_tie_descent) and whose hit maps
+    hold, level by level, the model's hit states [H k] ([hit_rel]): for EVERY iteration order [ord] of the result map
+    ([goorder_ok]: the entries in any permutation — Go does not define the order), the call succeeds and, for every
+    level k: the result has the entry [map toFpt (centres of level k)] iff k is requested (in [levelMap], not deeper than
+    the index, the segment meets the root extent) and has at least one centre; the hit maps of level k afterwards hold
+    the model's [snapAndHit] state if k is requested and are unchanged otherwise.  So the order only decides in which
+    sequence INDEPENDENT per-level maps are written; nothing of it shows in the result ([C02_source_tie_snap_order]).
+    Hypotheses: as C02_source_tie_descent (deepest level <= 32, [line_fits] on the root and the occupied pixels).
+    MODELLED (trusted mappings, listed at the top of gen/IndexTopGen.v): float64 abstract; Go maps = association lists
+    with the iteration order a parameter; [checkPointHits(ix, v, r, level)] = the regenerated gen_checkPointHits on the
+    two inner maps of that level, written back (reference semantics; accepted only behind the two makes);
+    make([]T, n) / s[i] = v = make_slice / setidx; snapClosestPoints, checkPointHits as regenerated (DescentGen.v,
+    HitsGen.v). *)
+Theorem C02_source_tie_snap_closest_points :
+  forall (fo : floatops) (ord : goorder) (g : grid) (hots : list (list (Z * Z)))
+         (ix : gen_PointIndexT) (line : FLine fo) (lm : gomap N unit) (ringId : nat) (H : N -> hits),
+  goorder_ok ord -> ixT_rel g hots ix -> (gdeep g <= 32)%nat ->
+  let a := fst (ofFline fo line) in
+  let b := snd (ofFline fo line) in
+  line_fits a b (gext g) ->
+  (forall l c, (1 <= l <= gdeep g)%nat -> mem_addr c (hotLookup hots l) = true -> line_fits a b (quadExtent g l (fst c) (snd c))) ->
+  hit_rel H (PointIndexT_hitOnce ix) (PointIndexT_hitMultiple ix) ->
+  exists (h1 h2 : hitsT) (ppl : gomap N (list (FPt fo))),
+    gen_SnapClosestPoints fo ord ix line lm (Z.of_nat ringId) = Ok (h1, h2, ppl) /\
+    forall k : N,
+      let requested := negb (gm_len lm =? 0) && lineIntersects a b (gext g) && (k <=? N.of_nat (gdeep g))%N && gm_has N.eqb lm k in
+      let r := snapAndHit g hots (H k) a b (N.to_nat k) ringId in
+      gm_get N.eqb ppl k = (if requested then match fst r with [] => None | _ :: _ => Some (map (toFpt fo) (fst r)) end else None) /\
+      gm_get_or N.eqb [] h1 k = hm_conv (hitOnce (if requested then snd r else H k)) /\
+      gm_get_or N.eqb [] h2 k = hm_conv (hitMultiple (if requested then snd r else H k)).
+Proof. exact gen_SnapClosestPoints_spec. Qed.
+Print Assumptions C02_source_tie_snap_closest_points.
+
+(** two iteration orders give the same points and the same hit lists, level by level *)
+Theorem C02_source_tie_snap_order :
+  forall (fo : floatops) (ord ord' : goorder) (g : grid) (hots : list (list (Z * Z)))
+         (ix : gen_PointIndexT) (line : FLine fo) (lm : gomap N unit) (ringId : nat) (H : N -> hits),
+  goorder_ok ord -> goorder_ok ord' -> ixT_rel g hots ix -> (gdeep g <= 32)%nat ->
+  line_fits (fst (ofFline fo line)) (snd (ofFline fo line)) (gext g) ->
+  (forall l c, (1 <= l <= gdeep g)%nat -> mem_addr c (hotLookup hots l) = true ->
+     line_fits (fst (ofFline fo line)) (snd (ofFline fo line)) (quadExtent g l (fst c) (snd c))) ->
+  hit_rel H (PointIndexT_hitOnce ix) (PointIndexT_hitMultiple ix) ->
+  exists h1 h2 ppl h1' h2' ppl',
+    gen_SnapClosestPoints fo ord ix line lm (Z.of_nat ringId) = Ok (h1, h2, ppl) /\
+    gen_SnapClosestPoints fo ord' ix line lm (Z.of_nat ringId) = Ok (h1', h2', ppl') /\
+    forall k : N, gm_get N.eqb ppl k = gm_get N.eqb ppl' k /\
+                  gm_get_or N.eqb [] h1 k = gm_get_or N.eqb [] h1' k /\ gm_get_or N.eqb [] h2 k = gm_get_or N.eqb [] h2' k.
+Proof.
+  intros fo ord ord' g hots ix line lm ringId H Ho Ho' Hix Hd Hroot Hfit Hh.
+  destruct (gen_SnapClosestPoints_spec fo ord g hots ix line lm ringId H Ho Hix Hd Hroot Hfit Hh) as (h1 & h2 & ppl & E & P).
+  destruct (gen_SnapClosestPoints_spec fo ord' g hots ix line lm ringId H Ho' Hix Hd Hroot Hfit Hh) as (h1' & h2' & ppl' & E' & P').
+  exists h1, h2, ppl, h1', h2', ppl'. split; [exact E |]. split; [exact E' |].
+  intro k. destruct (P k) as (A1 & A2 & A3). destruct (P' k) as (B1 & B2 & B3). cbv zeta in *.
+  split; [exact (eq_trans A1 (eq_sym B1)) |]. split; [exact (eq_trans A2 (eq_sym B2)) | exact (eq_trans A3 (eq_sym B3))].
+Qed.
+Print Assumptions C02_source_tie_snap_order.
+
+Theorem C02_source_tie_get_hit_multiple : forall (fo : floatops) ix (H : N -> hits) k,
+  hit_rel H (PointIndexT_hitOnce ix) (PointIndexT_hitMultiple ix) ->
+  gen_GetHitMultiple fo ix k = Ok (hm_conv (hitMultiple (H k))).
+Proof. exact gen_GetHitMultiple_spec. Qed.
+Print Assumptions C02_source_tie_get_hit_multiple.
+
+(** the regenerated code runs (float operations: exact decimal fixed point [fo_fixed], for which the codec is the
+    identity): the 32 x 32 grid of pixel size 2 of the example above, ten vertices inserted by the regenerated
+    InsertPolygon, the diagonal (2,2) -> (40,40) snapped TWICE for ring 7 with levels 3, 5, 0 requested, once iterating
+    the result map in map order and once in reverse: the same answers, and the model's (centres, hit lists: the second
+    pass moves the centres after the first into hitMultiple); level 4 is not requested: no entry, no hits *)
+Example C02_source_tie_snap_closest_points_example :
+  let g := mkGrid (mkExtent 0 0 64 64) 2 5 in
+  let poly : list (list (FPt fo_fixed)) := [[(3,3);(41,3);(41,41);(3,41);(11,11);(11,21);(21,21);(21,11);(63,63);(1,1)]] in
+  let lm : gomap N unit := [(3%N, tt); (5%N, tt); (0%N, tt)] in
+  let line : FLine fo_fixed := ((2, 2), (40, 40)) in
+  let levels := [0; 3; 5; 4]%N in
+  let run := fun ord : goorder =>
+    do (Q, e) <- gen_InsertPolygon fo_fixed (gen_empty_indexT g) poly;
+    let ix := PointIndexT_with_quadrants (gen_empty_indexT g) Q in
+    do (h1, h2, ppl) <- gen_SnapClosestPoints fo_fixed ord ix line lm 7;
+    let ix2 := PointIndexT_with_hitMultiple (PointIndexT_with_hitOnce ix h1) h2 in
+    do (h1', h2', ppl') <- gen_SnapClosestPoints fo_fixed ord ix2 line lm 7;
+    Ok (map (fun k => (gm_get N.eqb ppl' k, gm_get_or N.eqb [] h1' k, gm_get_or N.eqb [] h2' k)) levels) in
+  let model :=
+    match insertPolygon g (map (map (ofFpt fo_fixed)) poly) with
+    | Ok hs =>
+        map (fun k : N =>
+               if existsb (N.eqb k) [0; 3; 5]%N then
+                 let r1 := snapAndHit g (hotLevels g hs) (mkHits [] []) (2, 2) (40, 40) (N.to_nat k) 7 in
+                 let r2 := snapAndHit g (hotLevels g hs) (snd r1) (2, 2) (40, 40) (N.to_nat k) 7 in
+                 (Some (fst r2), hm_conv (hitOnce (snd r2)), hm_conv (hitMultiple (snd r2)))
+               else (None, [], [])) levels
+    | Err _ => []
+    end in
+  run goorder_id = Ok model /\ run goorder_rev = Ok model /\
+  map (fun x => length (snd x)) model = [0; 3; 3; 0]%nat.
 Proof. vm_compute. repeat split; reflexivity. Qed.
